@@ -179,4 +179,18 @@ def Parsed.bits? : Parsed → Option Nat
   | .nan neg => some ((if neg then 2 ^ 63 else 0) + 2047 * 2 ^ 52 + 2 ^ 51)
   | .bad => none
 
+/-- the text route of a validated newtype (`Parsable::parse`, i.e. `FromStr`, also what the CLI's value
+    parsers call): `s.parse::<f64>()`, then the range check on the parsed value -/
+def textRoute (lo hi : Nat) (s : String) : Option Nat :=
+  match (parseRust s).bits? with
+  | some b => tryFromBits lo hi b
+  | none => none
+
+/-- the JSON route: a serde_json number (no inf/nan literals; a number too large for f64 is an error),
+    then - when the type carries `#[serde(try_from = "f64")]` - the same range check -/
+def jsonRoute (checked : Bool) (lo hi : Nat) (s : String) : Option Nat :=
+  match (parseJson s).bits? with
+  | some b => if !isFinite b then none else if checked then tryFromBits lo hi b else some b
+  | none => none
+
 end IPT.F64
